@@ -195,6 +195,9 @@ func runC17(c *ctx) {
 			c.c17History(sp, c.res.Seed*100000+int64(k), sh)
 		}
 	}
+	// TwoPartyHandler (Doerner sessions): same oracles, replayed in Model/TwoParty.v; a few of its (larger) histories go to cases.v
+	c.m.MaxLog, c.m.MaxLogSize = c.m.MaxLog+12, 8000
+	c.c17TwoParty()
 }
 
 // runC17Race: concurrent use; meaningful only in the binary built with -race (the race detector aborts with exit code 66).
